@@ -1,4 +1,7 @@
+#[cfg(not(prqlc_verif))]
 use std::collections::HashMap;
+#[cfg(prqlc_verif)]
+use prqlc_parser::verif_hash::HashMap;
 
 use crate::ir::decl::{Decl, DeclKind, Module, TableDecl, TableExpr};
 use crate::ir::pl::*;
